@@ -348,6 +348,23 @@ pub fn cases_c11(cfg: &Cfg) -> Vec<Case> {
             }));
         }
     }
+    if cfg.scale == Scale::Full && cfg.rep == 0 {
+        // the deepest codes the trees support: one codeword of exactly 32 bits (16 quad levels; 32 binary levels, thorough)
+        let mut deep: Vec<(&'static str, usize)> = vec![("HQWT256", 4), ("HQWT512Pfs", 4)];
+        if cfg.tier == Tier::Thorough {
+            deep.push(("HWT", 2));
+        }
+        for (alias, arity) in deep {
+            let spec = deepest_supported_spec(arity, rng.u64());
+            let ty = format!("{}<u8>", alias);
+            let class = format!("{}|deepest supported code (32 bits)", ty);
+            let desc = J::obj().set("spec", spec.to_json());
+            let w = spec.n as u64 * 4;
+            out.push(Case::new(ty, class, desc, w, move |rep: &mut Rep| {
+                with_tree!(alias, "u8", run_ser_tree, rep, &spec, budget, false);
+            }));
+        }
+    }
     let qk = if cfg.scale == Scale::Tiny { 12 } else { 2 };
     for (j, spec) in quad_specs(cfg.scale, cfg.tier, cfg.seed ^ 0x11).into_iter().enumerate() {
         if j % qk != 0 {
